@@ -142,6 +142,9 @@ def overlapFree : List (Nat × Nat) → Bool
   | [_] => true
   | a :: b :: r => decide (a.2 ≤ b.1) && overlapFree (b :: r)
 
+/-- every section has `Start ≤ End` (checked by `Add` since the fix of the inverted-section panic) -/
+def properSecs (l : List (Nat × Nat)) : Bool := l.all fun p => decide (p.1 ≤ p.2)
+
 def lastEnd : List (Nat × Nat) → Nat
   | [] => 0
   | [a] => a.2
@@ -181,7 +184,8 @@ def effective (d : Doc) : Eff :=
 /-- `ShardBuilder.Add` for the (single or last) repository `repo` -/
 def SB.add (repo : Repo) (b : SB) (d : Doc) : Outcome SB :=
   let e := effective d
-  if !overlapFree e.symbols then .err "sections overlap"
+  if !properSecs e.symbols then .err "section ends before it starts"
+  else if !overlapFree e.symbols then .err "sections overlap"
   else if lastEnd e.symbols > e.content.length then .err "section goes past end of content"
   else
   match b.contentPB.add e.content e.symbols with
